@@ -88,6 +88,9 @@ def step (toks : List String) : String :=
   | ["temper", drv, T, s, f, nrep, βs, offs, nss, script] =>
     doTemper (drv == "parallel") (parseNat T) (parseNat s) (parseNat f) (parseNat nrep) (parseRats βs) (parseRats offs)
       (parseNss nss) (parseSwapScript script)
+  | ["genericm", _variant, T, f, β, off, nseq] => doIsingM (parseNat T) (parseNat f) (parseRat β) (parseRat off) (parseNats nseq)
+  | ["generict", T, s, f, nrep, βs, offs, nss] =>
+    doIsingT (parseNat T) (parseNat s) (parseNat f) (parseNat nrep) (parseRats βs) (parseRats offs) (parseNss nss)
   | ["isingm", T, f, β, off, nseq] => doIsingM (parseNat T) (parseNat f) (parseRat β) (parseRat off) (parseNats nseq)
   | ["isingt", T, s, f, nrep, βs, offs, nss] =>
     doIsingT (parseNat T) (parseNat s) (parseNat f) (parseNat nrep) (parseRats βs) (parseRats offs) (parseNss nss)
